@@ -91,7 +91,7 @@ let () = serve (fun fn req ->
     let outs = SL.map (fun rq ->
       if !stop then JNull else begin
         let hash = jtext (jfield rq "hash") in
-        let known = jopt jz (jfield rq "known") in
+        let known = (match jfield rq "known" with JStr "prev" -> (!c).c_len | j -> jopt jz j) in
         let evs = SL.map dec_event (jlist (jfield rq "events")) in
         c := request hash known !c;
         c := run sha jl !c evs;
